@@ -505,6 +505,14 @@ def check_type_normalisation(ctx, m):
                 makes.append(e.func)
             if not keeps or not makes:
                 continue
+            # every test and every conversion is about the element being normalised
+            ev_ = x.generators[0].target.id if isinstance(x.generators[0].target, ast.Name) else None
+            odd = [ast.unparse(t_) for t_ in ast.walk(x.elt) if isinstance(t_, ast.Call) and ast.unparse(t_.func) == "isinstance" and t_.args and ast.unparse(t_.args[0]) != ev_]
+            odd += [ast.unparse(t_) for t_ in ast.walk(x.elt) if isinstance(t_, ast.Call) and ast.unparse(t_.func) != "isinstance" and t_.args and
+                    not (ast.unparse(t_.args[0]) == ev_ or (isinstance(t_.args[0], ast.Attribute) and ast.unparse(t_.args[0].value) == ev_))]
+            if ev_ is not None:
+                ctx.ob("R03.5", "%s.__init__:element" % c.q, not odd, found=odd or "every class test and every conversion reads the element `%s`" % ev_, required="the normalisation of an object looks at that object only", mod=c.mod, node=x,
+                       sig="type-element")
             K2 = m.resolve_class(c.mod, ast.unparse(makes[-1]))
             for k in keeps:
                 K1 = m.resolve_class(c.mod, ast.unparse(k))
